@@ -282,11 +282,6 @@ def gen_file(rng, force=None):
         ref[mac] = rng.choice(forms)
     if knob == "glob2":
         ref["actor"] = ref["family"] = "glob"
-    elif ref["actor"] == "glob" or ref["family"] == "glob":
-        # a glob import serves both macros; with both expanded that is the known class glob-both: keep it for one macro only
-        other = "family" if ref["actor"] == "glob" else "actor"
-        if ref[other] == "glob":
-            ref[other] = "full"
     nimpl = rng.choice([1, 1, 2, 2, 3, 4])
     expand = rng.choice([None, None, ["actor"], ["family"], ["actor", "family"], ["family", "actor"]])
     want_main = rng.random() < 0.5
@@ -336,9 +331,18 @@ def gen_file(rng, force=None):
     if knob == "reimport":
         mac = rng.choice(["actor", "family"])
         first = local[mac] or mac
-        if local[mac] is None:
-            separate.append(("path", INTER, ("name", mac)))
-        separate.append(("path", INTER, ("rename", mac, "again_" + mac)))
+        if rng.random() < 0.4:
+            # several imports of the macro in ONE use item
+            leaves_ = [("rename", mac, "again_" + mac), ("rename", mac, "third_" + mac)]
+            if local[mac] is None:
+                leaves_.append(("name", mac))
+            rng.shuffle(leaves_)
+            separate.append(("path", INTER, ("group", leaves_)))
+            first = rng.choice([first, "again_" + mac, "third_" + mac])
+        else:
+            if local[mac] is None:
+                separate.append(("path", INTER, ("name", mac)))
+            separate.append(("path", INTER, ("rename", mac, "again_" + mac)))
         local[mac] = first
     rng.shuffle(separate)
     use_items = [{"kind": "use", "id": ids.new("u"), "attrs": [], "tree": t} for t in separate]
@@ -444,6 +448,7 @@ def gen_file(rng, force=None):
     d = {"prelude": prelude, "items": items, "expand": expand, "main": want_main, "fname": fname, "knob": knob}
     d["text"] = render_file(d, rng)
     d["classes"] = classify(d)
+    d["tags"] = input_tags(d)
     return d
 
 
@@ -473,8 +478,8 @@ def all_use_trees(d):
     return [it["tree"] for it in d["items"] if it["kind"] == "use"]
 
 
-def classify(d):
-    """the known-finding classes this input belongs to (decidable predicates on the input)"""
+def input_tags(d):
+    """decidable predicates on the input: the shapes that used to fail (now regression inputs) and the one that still does"""
     cls = set()
     exp = expand_list(d)
     trees = all_use_trees(d)
@@ -506,6 +511,14 @@ def classify(d):
     if len(exp) > 1 and any(l[0] == "glob" and p == (INTER,) for t in trees for p, l in ut_leaves(t)):
         cls.add("glob-both")
     return cls
+
+
+KNOWN_CLASSES = ("crate-alias",)
+
+
+def classify(d):
+    """the known-finding classes this input belongs to"""
+    return set(c for c in input_tags(d) if c in KNOWN_CLASSES)
 
 
 # ------------------------------------------------------------------------------------------------
